@@ -117,6 +117,40 @@ def read_state(case, d, bks):
     return out
 
 
+RECOVERY_ADDR = (9, 3, 4)
+
+
+def recovery_store(case, d, bks):
+    """store one more tile through the real code on the post-crash directory d, then read everything back"""
+    b = bks[case['backend']]
+    b.dir = d
+    c = b.new()
+    try:
+        addr = RECOVERY_ADDR
+        # keep it in the bundle of the batch for compact caches (same level, same 128x128 block)
+        a0 = tuple(case['batch'][0][0])
+        if case['backend'].startswith('compact'):
+            addr = (a0[0] // 128 * 128 + 9, a0[1] // 128 * 128 + 3, a0[2])
+        try:
+            B.op_store(c, addr + (None,), B.payload('b3'))
+        except Exception as ex:
+            return {RECOVERY_ADDR: ('EXC', repr(ex)[:200])}
+    finally:
+        B.cleanup(c)
+        b.dir = None
+    out = read_state(case, d, bks)
+    b.dir = d
+    c = b.new()
+    try:
+        out[RECOVERY_ADDR] = B.op_load(c, addr + (None,))
+    except Exception as ex:
+        out[RECOVERY_ADDR] = ('EXC', repr(ex)[:200])
+    finally:
+        B.cleanup(c)
+        b.dir = None
+    return out
+
+
 def is_single(p):
     return p.startswith('s')
 
@@ -386,7 +420,20 @@ def run(ctx):
                     got = read_state(c, scratch, bks)
                     ncrash += 1
                     ctx.count(('crash', cid, what))
-                    for key, v in got.items():
+                    checks = [('', got)]
+                    # recovery: the restarted process stores one more tile (same bundle / directory) through the real
+                    # code on top of the post-crash files; nothing that was readable may change by that
+                    if c['kind'] == 'tile' and prefix:
+                        rec = recovery_store(c, scratch, bks)
+                        if rec is not None:
+                            checks.append((' and after a further store of another tile', rec))
+                    for suffix, got in checks:
+                      for key, v in got.items():
+                        if key == RECOVERY_ADDR:
+                            if v != B.payload('b3'):
+                                ctx.violation({'kind': 'recovery-store', 'backend': c['backend']},
+                                              '%s: crash %s: a tile stored after the restart reads %s' % (cid, what, describe(v)), {'case': c})
+                            continue
                         in_batch = c['kind'] != 'tile' or key in {tuple(a) for a, _ in c['batch']}
                         allowed = [old[key]] + ([new[key]] if in_batch else [])
                         if v is None and in_batch and may_be_missing(c, key, old[key]):
@@ -394,10 +441,10 @@ def run(ctx):
                         if isinstance(v, tuple) or not any(v == a for a in allowed):
                             cause = 'reader-exception' if isinstance(v, tuple) else ('missing' if v is None else 'garbage')
                             sig = {'kind': 'crash-state', 'backend': c.get('backend', c['kind']), 'cause': cause,
-                                   'torn': tv is not None,
+                                   'torn': tv is not None, 'after_recovery_store': bool(suffix),
                                    'file': os.path.basename(prefix[-1].get('path', prefix[-1].get('dst', ''))).split('.')[-1].split('-')[0] if prefix else ''}
-                            ctx.violation(sig, '%s: crash %s: address %s reads %s (before: %s, new: %s)' % (
-                                cid, what, key, describe(v), describe(old[key]), describe(new[key])),
+                            ctx.violation(sig, '%s: crash %s%s: address %s reads %s (before: %s, new: %s)' % (
+                                cid, what, suffix, key, describe(v), describe(old[key]), describe(new[key])),
                                 {'case': c, 'prefix_len': len(prefix), 'torn': tv['torn'] if tv else None})
             ctx.cov['replayed_behaviours'] += 1
             ctx.cov['replayed_steps'] += len(cops)
